@@ -1361,6 +1361,9 @@ def run(ctx):
     if not ok:
         ctx.tie_broken("extracted body model crashed", err)
         return
+    # the extracted driver against Coq's own evaluation of the same definitions, on a sample of this run's histories
+    import wirecross
+    wirecross.hist_cross(ctx, runnable, model, ctx.sub_rng("c15-coqcross"), 300 if ctx.tier == "thorough" else 40)
     for h0, h, hi, hm, kind in zip(histories, runnable, impl, model, kinds):
         nontrivial = any(l.split(" ")[0] not in ("ok",) and not l.startswith("cur=") for l in hi) or "BRESET" in h
         ctx.case("\n".join(h), nontrivial=nontrivial,
